@@ -28,7 +28,15 @@ FILES = {
     (1, 2): ("OtherA.mo", "extra"),
     (2, 0): ("Base.mo", "base"),
     (2, 1): ("sub/ExtraB.mo", "extra"),
+    # reached only through a symlinked DIRECTORY (m/shared -> <root>/shared_m, l1/linked -> <root>/shared_l1):
+    # os.walk(followlinks=True) descends into it, in the compiler and in the mtime check
+    (0, 4): ("shared/Base.mo", "base"),
+    (1, 3): ("linked/Base.mo", "base"),
+    # a symlinked single FILE (l2/BaseLink.mo -> <root>/shared_l2/BaseTarget.mo)
+    (2, 2): ("BaseLink.mo", "base"),
 }
+DIR_LINKS = {(0, "shared"): "shared_m", (1, "linked"): "shared_l1"}
+FILE_LINKS = {(2, 2): "shared_l2/BaseTarget.mo"}
 FOLDERS = {0: "m", 1: "l1", 2: "l2"}
 
 # version id -> a realistic versioneer string; ids {1,2,3}, {4,7}, {5,6} differ only in the local
@@ -142,12 +150,19 @@ def replay(api, root, case):
     dirs = {k: os.path.join(root, v) for k, v in FOLDERS.items()}
     for d in dirs.values():
         os.makedirs(d)
+    for (fo, name), target in DIR_LINKS.items():
+        os.makedirs(os.path.join(root, target))
+        os.symlink(os.path.join(root, target), os.path.join(dirs[fo], name), target_is_directory=True)
     present = {}
 
     def write(folder, fid, mtime, cid):
         p = os.path.join(dirs[folder], FILES[(folder, fid)][0])
         os.makedirs(os.path.dirname(p), exist_ok=True)
-        with open(p, "w") as f:
+        if (folder, fid) in FILE_LINKS and not os.path.lexists(p):
+            target = os.path.join(root, FILE_LINKS[(folder, fid)])
+            os.makedirs(os.path.dirname(target), exist_ok=True)
+            os.symlink(target, p)
+        with open(p, "w") as f:         # follows a symlink, as does os.utime below
             f.write(text((folder, fid, cid)))
         os.utime(p, (mtime, mtime))
         present[(folder, fid)] = (folder, fid, cid)
